@@ -47,3 +47,14 @@ Theorem C17s_signed_len_monotone : forall E id p y1 y2,
   LEN (code_cw E id p (nat_of_signed y1)) <= LEN (code_cw E id p (nat_of_signed y2)).
 Proof. exact SignedCodes.signed_len_monotone. Qed.
 Print Assumptions C17s_signed_len_monotone.
+
+Theorem C17s_signed_len_exact :
+  forall E Dw Dr checks id p flw flr y pre post strict cap pk,
+  (- 2 ^ 63 <= y < 2 ^ 63)%Z -> valid id p (nat_of_signed y) -> maxcap <= cap ->
+  exists cw pk' x l,
+    wrun (swprims E checks) (sel_write E Dw checks id p flw (nat_of_signed y)) pre = Ok (l, pre ++ cw) /\
+    rrun (sprims E strict cap) (sel_read E Dr id p flr) (mkr (cw ++ post) (LEN pre) pk)
+      = Ok (x, mkr post (LEN pre + l) pk') /\
+    l = LEN cw /\ sel_len Dw id p flw (nat_of_signed y) = Some l /\ sel_len Dr id p flr (nat_of_signed y) = Some l.
+Proof. exact SignedCodes.signed_len_exact. Qed.
+Print Assumptions C17s_signed_len_exact.
